@@ -51,6 +51,23 @@ _push = Contract(
         'and old(self._execution_count) >= total_function_execution_limit, result == True)',
         # the budget never moves backwards
         'self._execution_count >= old(self._execution_count)',
+        # exact decision (the property's numbers: depth, total, per function, recursive): refused iff outside
+        # builtins and (too deep | total spent | per-function spent outside typing | too many frames of it)
+        'result == (not execution.get_root_context().is_builtins_module() and ('
+        'old(self._recursion_level) + 1 > recursion_limit '
+        'or old(self._execution_count) >= total_function_execution_limit '
+        'or (old(self._funcdef_execution_counts).get(execution.tree_node, 0) >= per_function_execution_limit '
+        '    and execution.get_root_context().py__name__() != "typing") '
+        'or (old(self._funcdef_execution_counts).get(execution.tree_node, 0) < per_function_execution_limit '
+        '    and (old(self._parent_execution_funcs) + [execution.tree_node]).count(execution.tree_node) '
+        '        > per_function_recursion_limit)))',
+        # exact accounting of the per-function budget
+        'implies(not execution.get_root_context().is_builtins_module() '
+        'and old(self._recursion_level) + 1 <= recursion_limit '
+        'and old(self._execution_count) < total_function_execution_limit '
+        'and old(self._funcdef_execution_counts).get(execution.tree_node, 0) < per_function_execution_limit, '
+        'self._funcdef_execution_counts[execution.tree_node] == '
+        'old(self._funcdef_execution_counts).get(execution.tree_node, 0) + 1)',
         # per-function budget: a grant (outside typing) found room and used one unit
         'implies(not execution.get_root_context().is_builtins_module() and not result '
         'and execution.get_root_context().py__name__() != "typing", '
